@@ -4,7 +4,8 @@
    - a structural schema AST (packages / files / workspaces / statements) and `render : schema -> texts`
      (the VSQL text the Go compiler is run on);
    - `compile (m : mode)`: the reference compiler.  `compile Go` is the faithful model of
-     pkg/parser (impl_analyse.go, impl_build.go) + appdef builder as they are, quirks included;
+     pkg/parser (impl_analyse.go, impl_build.go) + appdef builder as they are, quirks included
+     (three behaviours that were defects are flags taken from the source by the translator);
      `compile Ideal` is the same translation without the quirks (the executable form of the spec);
    - `Declares a it`: the declarative relation "item `it` is declared by schema `a`, directly or by
      the documented inheritance / system rules" (the property's own words).
@@ -12,7 +13,7 @@
    `satisfies` judges the observed dump against the spec (`compile Ideal`, proved equivalent to
    `Declares` in Proofs.v) and never looks at `compile Go`. *)
 From Coq Require Import List NArith ZArith Bool String Ascii DecimalString.
-From V Require Import Lib.Check.
+From V Require Import Lib.Check Gen.Params.
 Import ListNotations.
 Local Open Scope string_scope.
 Infix "+++" := (@app _) (right associativity, at level 60).
@@ -285,6 +286,19 @@ Definition item_key (i : item) : qname :=
   | ItProj q _ _ _ _ _ _ | ItRole q _ _ | ItRate q _ _ _ _ | ItLimit q _ _ _ _ _ | ItOther q _ => q
   end.
 
+(* A mode fixes the four points where compilers of this family have differed:
+   - are unnamed UNIQUE constraints numbered over the whole type (or per item list: finding F23),
+   - does a nested table that INHERITS get the inherited members (or only its own: F24),
+   - do view reference fields keep their targets (or lose them: F25),
+   - is the ACL block of an inherited workspace applied again for every heir.
+   `Ideal` is the spec; `Go` is the compiler as it is: the first three flags are read off the source
+   by translator/parts/c17.py (Gen/Params.v), the repetition is how grantsAndRevokes works;
+   `GoBefore` is the compiler before the three repairs (kept for the conditional refutations). *)
+Record mode := Mode { m_uniq_per_type : bool; m_nested_inherit : bool; m_view_refs : bool; m_acl_repeat : bool }.
+Definition Ideal : mode := Mode true true true false.
+Definition Go : mode := Mode parser_uniques_numbered_per_type parser_nested_tables_inherit parser_view_refs_recorded true.
+Definition GoBefore : mode := Mode false false false true.
+
 (* ---- leaf translations (shared by the reference compiler and by the declarative spec) ---- *)
 
 Definition dkind_of (d : dtype) : dkind :=
@@ -360,12 +374,23 @@ Fixpoint uniqs_from (cnt : N) (its : list titem) : list udef :=
   | _ :: r => uniqs_from cnt r
   end.
 Definition uniqs_of (l : ilist) : list udef := uniqs_from 0 (snd l).
+(* the spec numbers the unnamed constraints over the whole chain, so that inherited and own ones
+   never clash (numbered per list, the second "01" made the builder panic: finding F23) *)
+Definition count_unnamed (its : list titem) : N :=
+  N.of_nat (List.length (filter (fun it => match it with TUnique None _ => true | _ => false end) its)).
+Fixpoint uniqs_run (cnt : N) (ls : list ilist) : list udef :=
+  match ls with
+  | [] => []
+  | l :: r => uniqs_from cnt (snd l) +++ uniqs_run (cnt + count_unnamed (snd l)) r
+  end.
+Definition uniqs_chain (m : mode) (ls : list ilist) : list udef :=
+  if m_uniq_per_type m then uniqs_run 0 ls else flat_map uniqs_of ls.
 
 (* the compiled structure of a table, given its kind and the item lists it is made of
    (ancestors first, own items last): system fields ++ inherited ++ declared *)
-Definition struct_item (pn : ident) (wq : qname) (t : table) (k : tkind) (single : bool) (ls : list ilist) : item :=
+Definition struct_item (m : mode) (pn : ident) (wq : qname) (t : table) (k : tkind) (single : bool) (ls : list ilist) : item :=
   ItStruct (pn, t_name t) k wq (t_abstract t) single
-           (sys_fields k +++ flat_map fields_of ls) (flat_map conts_of ls) (flat_map uniqs_of ls).
+           (sys_fields k +++ flat_map fields_of ls) (flat_map conts_of ls) (uniqs_chain m ls).
 
 Definition desc_name (w : ws) : ident := w_name w ++ "Descriptor".
 Definition desc_item (pn : ident) (w : ws) : item :=
@@ -383,8 +408,8 @@ Definition find_vitem (v : view) (n : ident) : option vitem := find (fun i => vi
 Definition mem_s (x : string) (l : list string) : bool := existsb (String.eqb x) l.
 (* views(): partition key and clustering columns in PRIMARY KEY order, value = the rest in declaration order *)
 (* `keep`: whether the targets of a reference field survive.  analyseViewRefFields checks them
-   but never records them, so the Go compiler builds every view reference field without targets
-   (finding F25); the spec keeps them. *)
+   but did not record them, so every view reference field was built without targets
+   (finding F25, repaired); the spec keeps them. *)
 Definition vrefs (keep : bool) (pn : ident) (refs : list qref) : option (list qname) :=
   Some (if keep then map (resolve pn) refs else []).
 Definition vfd_key (keep : bool) (pn : ident) (part : bool) (i : vitem) : fdef :=
@@ -457,7 +482,11 @@ Definition limit_item (pn : ident) (wq : qname) (l : limit) : item :=
 
 (* applyGrantOrRevokeRule: the rules one GRANT / REVOKE statement expands to.  A ... ON TABLE
    statement with an operation list yields one rule per distinct operation (Go map order; emitted
-   here in enumeration order), the columns of repeated operations are concatenated. *)
+   here in enumeration order), the columns of a repeated operation are collected by `op_cols`. *)
+(* analyseGrantOrRevoke: an operation named with columns adds them to the operation's list, named
+   without columns it empties the list *)
+Definition op_cols (o : op) (acts : list (op * list string)) : list string :=
+  fold_left (fun acc x => if op_eqb (fst x) o then match snd x with [] => [] | c => acc +++ c end else acc) acts [].
 Definition grant_all_ops : list op := [OInsert; OUpdate; OSelect].   (* norm of grantAllToTableOps *)
 Definition grant_rules (pn : ident) (wq : qname) (g : grant) : list rule :=
   let mk ops f fields := Rule (negb (g_revoke g)) ops f fields (resolve pn (g_role g)) in
@@ -473,8 +502,7 @@ Definition grant_rules (pn : ident) (wq : qname) (g : grant) : list rule :=
   | GAllTables (Some acts) => [mk (norm_ops acts) (FWT wq FkRecords) []]
   | GTableAll t cols => [mk grant_all_ops (FQ [resolve pn t]) cols]
   | GTable t acts =>
-    map (fun o => mk [o] (FQ [resolve pn t]) (flat_map snd (filter (fun x => op_eqb (fst x) o) acts)))
-        (norm_ops (map fst acts))
+    map (fun o => mk [o] (FQ [resolve pn t]) (op_cols o acts)) (norm_ops (map fst acts))
   end.
 Definition ws_grants (revoke : bool) (w : ws) : list grant :=
   flat_map (fun i => match i with IGrant g => if Bool.eqb (g_revoke g) revoke then [g] else [] | _ => [] end) (w_items w).
@@ -569,21 +597,22 @@ Definition ws_ancestors (p : pkg) (w : ws) : list qname :=
 
 (* ------------------------------------------------------------------ the reference compiler *)
 
-Inductive mode := Go | Ideal.
-
-(* addNestedTableToDef adds only the nested table's own items (Go); the spec also gives a nested
-   table that INHERITS an abstract table the inherited members (Ideal) *)
+(* a nested table that INHERITS is made of the inherited item lists and its own (fillTable); before
+   the repair of F24 addNestedTableToDef added only the own items *)
 Definition nested_lists (m : mode) (pn : ident) (t : table) : list ilist :=
-  match m, t_inh t with
-  | Ideal, Some _ => match chain fuel0 pn t with Some (_, ls) => ls | None => [(pn, t_items t)] end
-  | _, _ => [(pn, t_items t)]
+  match t_inh t with
+  | Some _ =>
+    if m_nested_inherit m
+    then match chain fuel0 pn t with Some (_, ls) => ls | None => [(pn, t_items t)] end
+    else [(pn, t_items t)]
+  | None => [(pn, t_items t)]
   end.
 
 Definition table_items (m : mode) (pn : ident) (wq : qname) (t : table) : list item :=
   match chain fuel0 pn t with
   | Some (b, ls) =>
-    struct_item pn wq t (base_kind b) (base_single b) ls
-    :: map (fun t' => struct_item pn wq t' (nested_kind (base_kind b)) false (nested_lists m pn t')) (nested_tables t)
+    struct_item m pn wq t (base_kind b) (base_single b) ls
+    :: map (fun t' => struct_item m pn wq t' (nested_kind (base_kind b)) false (nested_lists m pn t')) (nested_tables t)
   | None => []
   end.
 
@@ -591,10 +620,7 @@ Definition count_q (x : qname) (l : list qname) : nat := List.length (filter (qn
 (* grantsAndRevokes re-applies the statements of every inherited workspace, with the inherited
    workspace's own builder, once per inheriting workspace *)
 Definition acl_repeat (m : mode) (q : qname) : nat :=
-  match m with
-  | Ideal => 1
-  | Go => S (count_q q (flat_map (fun pw => anc_list (fst pw) (snd pw)) all_ws))
-  end.
+  if m_acl_repeat m then S (count_q q (flat_map (fun pw => anc_list (fst pw) (snd pw)) all_ws)) else 1.
 Fixpoint repeat_list {A} (l : list A) (n : nat) : list A := match n with O => [] | S k => l +++ repeat_list l k end.
 
 Definition ws_item (m : mode) (p : pkg) (w : ws) : item :=
@@ -608,7 +634,7 @@ Definition stmt_items (m : mode) (pn : ident) (wq : qname) (i : wsitem) : list i
   match i with
   | ITable t => table_items m pn wq t
   | IType n ys => [type_item pn wq n ys]
-  | IView v => [view_item (match m with Ideal => true | Go => false end) pn wq v]
+  | IView v => [view_item (m_view_refs m) pn wq v]
   | IProj p => [proj_item pn wq p]
   | IFunc f => [func_item pn wq f]
   | IRole n pub => [ItRole (pn, n) wq pub]
@@ -897,6 +923,12 @@ Definition ws_ok (p : pkg) (w : ws) : bool :=
   && grants_before_revokes false (w_items w)
   && forallb (stmt_ok p w) (w_items w).
 
+(* the unique constraints a table ends up with have distinct names over the inheritance chain; the
+   builder panics otherwise (numbered per item list, two unnamed ones clashed: finding F23) *)
+Definition uniq_names_ok (i : item) : bool :=
+  match i with ItStruct _ _ _ _ _ _ _ us => nodup_b String.eqb (map ud_name us) | _ => true end.
+Definition no_unique_collision (m : mode) : bool := forallb uniq_names_ok (compile_items m).
+
 (* the language's rules, as far as this AST reaches: what the property calls a well-formed schema *)
 Definition wf : bool :=
   negb (match a with [] => true | _ => false end)
@@ -905,32 +937,26 @@ Definition wf : bool :=
   (* a qualified name is looked up in the current workspace first, whatever its package: entity
      names are kept distinct over the whole application *)
   && nodup_b String.eqb (map (fun i => snd (item_key i)) (compile_items Ideal))
+  && no_unique_collision Ideal
   && forallb (fun pw => ws_ok (fst pw) (snd pw)) all_ws.
 
-(* what the Go compiler additionally trips over (finding F23): the unique constraints a table ends
-   up with - numbered per item list - must have distinct names over the inheritance chain *)
-Definition uniq_names_ok (i : item) : bool :=
-  match i with ItStruct _ _ _ _ _ _ _ us => nodup_b String.eqb (map ud_name us) | _ => true end.
-Definition no_unique_collision : bool := forallb uniq_names_ok (compile_items Go).
-(* nested tables that inherit a user table lose the inherited members in Go (finding F24) *)
+(* nested tables that inherit a user table (the shape finding F24 was about) *)
 Definition no_nested_user_inherit : bool :=
   forallb (fun pw => forallb (fun t => forallb (fun t' => match t_inh t' with
                                                           | Some q => fst (resolve (p_name (fst pw)) q) =? "sys"
                                                           | None => true end) (nested_tables t))
                              (ws_roots (snd pw))) all_ws.
 
-(* view reference fields with targets lose them in Go (finding F25) *)
+(* view reference fields with targets (the shape finding F25 was about) *)
 Definition no_view_ref_targets : bool :=
   forallb (fun pw => forallb (fun i => match i with
                                        | IView v => forallb (fun x => match x with VRef _ (_ :: _) _ => false | _ => true end) (v_items v)
                                        | _ => true end) (w_items (snd pw))) all_ws.
 
-Definition go_accepts : bool := wf && no_unique_collision.
+(* a compiler of mode m accepts the well-formed schemas on which its builder does not panic *)
+Definition accepts (m : mode) : bool := wf && no_unique_collision m.
 Definition compile (m : mode) : option (list item) :=
-  match m with
-  | Go => if go_accepts then Some (compile_items Go) else None
-  | Ideal => if wf then Some (compile_items Ideal) else None
-  end.
+  if accepts m then Some (compile_items m) else None.
 
 (* ------------------------------------------------------------------ the declarative spec *)
 
@@ -973,11 +999,11 @@ Inductive Declares : item -> Prop :=
   | D_desc p w : In_ws p w -> w_abstract w = false -> Declares (desc_item (p_name p) w)
   | D_table p w t b ls :
       In_ws p w -> In (ITable t) (w_items w) -> Chain (p_name p) t b ls ->
-      Declares (struct_item (p_name p) (p_name p, w_name w) t (base_kind b) (base_single b) ls)
+      Declares (struct_item Ideal (p_name p) (p_name p, w_name w) t (base_kind b) (base_single b) ls)
   | D_nested p w t b ls t' ls' :
       In_ws p w -> In (ITable t) (w_items w) -> Chain (p_name p) t b ls -> Nested t t' ->
       NestedLists (p_name p) t' ls' ->
-      Declares (struct_item (p_name p) (p_name p, w_name w) t' (nested_kind (base_kind b)) false ls')
+      Declares (struct_item Ideal (p_name p) (p_name p, w_name w) t' (nested_kind (base_kind b)) false ls')
   | D_type p w n ys : In_ws p w -> In (IType n ys) (w_items w) -> Declares (type_item (p_name p) (p_name p, w_name w) n ys)
   | D_view p w v : In_ws p w -> In (IView v) (w_items w) -> Declares (view_item true (p_name p) (p_name p, w_name w) v)
   | D_proj p w x : In_ws p w -> In (IProj x) (w_items w) -> Declares (proj_item (p_name p) (p_name p, w_name w) x)
@@ -1029,6 +1055,7 @@ Definition flt_eqb (x y : flt) : bool :=
   | FT k, FT k' => fkind_eqb k k'
   | FWT w k, FWT w' k' => qname_eqb w w' && fkind_eqb k k'
   | FAnd k q, FAnd k' q' => fkind_eqb k k' && qname_eqb q q'
+  | FOther s, FOther s' => s =? s'
   | _, _ => false
   end.
 
@@ -1039,7 +1066,7 @@ Definition rule_proj (o : op) (l : list rule) : list rule := filter (fun r => me
 Definition rule_eqb1 (x y : rule) : bool :=
   bool_eqb (r_allow x) (r_allow y) && flt_eqb (r_flt x) (r_flt y) && list_eqb String.eqb (r_fields x) (r_fields y)
   && qname_eqb (r_role x) (r_role y).
-Definition ops_valid (l : list rule) : bool := forallb (fun r => list_eqb op_eqb (r_ops r) (norm_ops (r_ops r)) && negb (match r_ops r with [] => true | _ => false end)) l.
+Definition ops_valid (l : list rule) : bool := forallb (fun r => list_eqb op_eqb (r_ops r) (norm_ops (r_ops r))) l.
 Definition acl_eqb (l1 l2 : list rule) : bool :=
   ops_valid l1 && ops_valid l2 && forallb (fun o => list_eqb rule_eqb1 (rule_proj o l1) (rule_proj o l2)) all_ops.
 (* observed ACL = the declared block repeated k >= 1 times (k = 1 when nothing inherits the workspace) *)
@@ -1070,6 +1097,7 @@ Definition item_sim (aclc : list rule -> list rule -> bool) (x y : item) : bool 
     qname_eqb q q' && qname_eqb w w' && N.eqb c c' && Z.eqb pe pe' && list_eqb scope_eqb sc sc'
   | ItLimit q w ops e f r, ItLimit q' w' ops' e' f' r' =>
     qname_eqb q q' && qname_eqb w w' && list_eqb op_eqb ops ops' && bool_eqb e e' && flt_eqb f f' && qname_eqb r r'
+  | ItOther q s, ItOther q' s' => qname_eqb q q' && (s =? s')
   | _, _ => false
   end.
 
@@ -1098,10 +1126,12 @@ Definition texts_eqb (x y : list (string * list string)) : bool :=
 Definition agrees (t : trace) : bool :=
   texts_eqb (render (tr_ast t)) (tr_texts t)
   && match compile (tr_ast t) Go, tr_out t with
-     | Some d, Compiled obs _ _ => dump_match acl_eqb d obs
+     | Some d, Compiled obs sys_unchanged deterministic => dump_match acl_eqb d obs && sys_unchanged && deterministic
      | None, Rejected panicked =>
-       (* the only modelled panic is the unique-name collision of a language-correct schema *)
-       bool_eqb panicked (wf (tr_ast t) && negb (no_unique_collision (tr_ast t)))
+       (* a well-formed schema is refused only through the unique-name collision, and that is a
+          panic; for a malformed one the model predicts the refusal, not whether the first thing the
+          compiler trips over is an error or that panic *)
+       negb (wf (tr_ast t)) || panicked
      | _, _ => false
      end.
 
